@@ -84,7 +84,11 @@ func Verif_C02_reference_from_fresh() {
 	for i := 0; i < n; i++ {
 		s.assumeSteps(i, T, K)
 	}
-	ctx := verifInstall(k, s, verifFreshState(s), s.params.StartTime)
+	// the chain may have started (and recorded its last mint time) at any moment up to the start of the emission
+	fresh := verifFreshState(s)
+	fresh.LastMintBlockTime = verif_time("t_genesis")
+	verif_assume(!fresh.LastMintBlockTime.After(s.params.StartTime))
+	ctx := verifInstall(k, s, fresh, s.params.StartTime)
 	ctx = ctx.WithBlockTime(T)
 	amt, err := k.Mint(ctx)
 	verif_assert(err == nil, "Mint returns no error")
